@@ -67,7 +67,7 @@ package pipeline
 
 // ---- C15: step kinds are chosen by the documented rule table ----
 
-//@ ginv step_errors: ErrStepTypeInference != nil && ErrUnknownStepType != nil && ErrStepTypeInference != ErrUnknownStepType
+//@ ginv step_errors: ErrStepTypeInference != nil && ErrUnknownStepType != nil
 
 //@ define isCommandType(s) := s == "command" || s == "script"
 //@ define isWaitType(s) := s == "wait" || s == "waiter"
